@@ -161,10 +161,11 @@ cpdef list collect_intervals_fast(
                     if current_idx > e_idx:
                         current_idx = e_idx
 
-                    # Create interval
-                    start_dt = start_date + timedelta(seconds=start * resolution)
-                    end_dt = start_date + timedelta(seconds=current_idx * resolution)
-                    intervals.append(interval_class(start_dt, end_dt))
+                    # Create interval (a run that lies wholly outside the query window clips to nothing)
+                    if start < current_idx:
+                        start_dt = start_date + timedelta(seconds=start * resolution)
+                        end_dt = start_date + timedelta(seconds=current_idx * resolution)
+                        intervals.append(interval_class(start_dt, end_dt))
 
                 duration = 0
                 start = -1
